@@ -227,6 +227,15 @@ func init() {
 		"vFloatSame": func(e *Engine, caller *frame, fn *ssa.Function, args []Value) Value {
 			return e.tt.Eq(args[0].(*Term), args[1].(*Term))
 		},
+		"vOr": func(e *Engine, caller *frame, fn *ssa.Function, args []Value) Value {
+			return e.tt.Or(args[0].(*Term), args[1].(*Term))
+		},
+		"vAnd": func(e *Engine, caller *frame, fn *ssa.Function, args []Value) Value {
+			return e.tt.And(args[0].(*Term), args[1].(*Term))
+		},
+		"vImplies": func(e *Engine, caller *frame, fn *ssa.Function, args []Value) Value {
+			return e.tt.Or(e.tt.Not(args[0].(*Term)), args[1].(*Term))
+		},
 		"vSymbolic": func(e *Engine, caller *frame, fn *ssa.Function, args []Value) Value {
 			return e.tt.Bool(e.cfg.Concrete == nil)
 		},
